@@ -182,30 +182,44 @@ Proof. intros I. pose proof (inner_step_inv w o I) as J. destruct (inner_step w 
 
 Definition no_delempty (o : wop) : bool := match o with DelEmpty _ => false | _ => true end.
 
-Lemma forget_inv st s ss : Inv12 st -> nth_side (st_sets st) s = Some ss ->
-  Inv12 (with_set st (st_heap st) s {| ss_members := []; ss_tab := [] |}).
+Lemma subset_set_inv st s ss ss' : Inv12 st -> nth_side (st_sets st) s = Some ss ->
+  (forall a, In a (set_fp ss') -> In a (set_fp ss)) ->
+  Inv12 (with_set st (st_heap st) s ss').
 Proof.
-  intros [I I2] En. split.
+  intros [I I2] En Hsub. apply nth_side_Some in En. split.
   - constructor; cbn [with_set st_heap st_sides st_sets].
     + apply (inv_ok _ I).
     + apply (inv_sep _ I).
     + intros k sk a Hk Ha. unfold put_side in Hk. rewrite nth_error_upd in Hk.
       destruct (Nat.eqb (Z.to_nat s) k) eqn:E.
-      * destruct (nth_error (st_sets st) k); cbn [option_map] in Hk; [|discriminate]. inversion Hk; subst. destruct Ha.
+      * apply Nat.eqb_eq in E. subst k. rewrite En in Hk. cbn [option_map] in Hk. inversion Hk; subst.
+        apply (inv_set_lt _ I _ ss a En). apply Hsub. exact Ha.
       * apply (inv_set_lt _ I k sk a Hk Ha).
     + intros k1 k2 s1 s2 a Hne H1 H2 Ha Hin. unfold put_side in H1, H2. rewrite nth_error_upd in H1, H2.
-      destruct (Nat.eqb (Z.to_nat s) k1) eqn:E1.
-      * destruct (nth_error (st_sets st) k1); cbn [option_map] in H1; [|discriminate]. inversion H1; subst. destruct Ha.
-      * destruct (Nat.eqb (Z.to_nat s) k2) eqn:E2.
-        -- destruct (nth_error (st_sets st) k2); cbn [option_map] in H2; [|discriminate]. inversion H2; subst. destruct Hin.
-        -- exact (inv_set_sep _ I k1 k2 s1 s2 a Hne H1 H2 Ha Hin).
+      destruct (Nat.eqb (Z.to_nat s) k1) eqn:E1; destruct (Nat.eqb (Z.to_nat s) k2) eqn:E2.
+      * apply Nat.eqb_eq in E1, E2. congruence.
+      * apply Nat.eqb_eq in E1. subst k1. rewrite En in H1. cbn [option_map] in H1. inversion H1; subst.
+        exact (inv_set_sep _ I _ k2 ss s2 a Hne En H2 (Hsub a Ha) Hin).
+      * apply Nat.eqb_eq in E2. subst k2. rewrite En in H2. cbn [option_map] in H2. inversion H2; subst.
+        exact (inv_set_sep _ I k1 _ s1 ss a Hne H1 En Ha (Hsub a Hin)).
+      * exact (inv_set_sep _ I k1 k2 s1 s2 a Hne H1 H2 Ha Hin).
   - exact I2.
+Qed.
+
+Lemma forget_inv st s ss : Inv12 st -> nth_side (st_sets st) s = Some ss ->
+  Inv12 (with_set st (st_heap st) s {| ss_members := []; ss_tab := [] |}).
+Proof. intros I En. apply (subset_set_inv st s ss _ I En). intros a []. Qed.
+
+Lemma member_with_label_in h ms label a : In a (member_with_label h ms label) -> In a ms.
+Proof.
+  unfold member_with_label. destruct (filter (fun a0 => a_label (geta h a0) =? label) ms) as [|x t] eqn:E; [intros []|].
+  intros [<-|[]]. assert (Hin : In x (x :: t)) by (left; reflexivity). rewrite <- E in Hin. apply filter_In in Hin. apply Hin.
 Qed.
 
 (* every world operation except remove_property_layer("empty") keeps the invariants of the embedded state *)
 Theorem wstep_inv w o : no_delempty o = true -> Inv12 (w_st w) -> Inv12 (w_st (fst (wstep w o))).
 Proof.
-  intros Hn I. destruct o as [o'|mech src root|s label ci|s label|s ci name v|s|s|s ci key cj]; try discriminate; cbn [wstep].
+  intros Hn I. destruct o as [o'|mech src root|s label ci|s label|s ci name v|s|s|s ci key cj|s kind arg|s kind|s perm]; try discriminate; cbn [wstep].
   - destruct o'; try exact I; try (destruct (fixed_guard w s label); [exact I|]);
       try (destruct (xconn_target w s label key)); apply inner_case; exact I.
   - apply wcopy_inv. exact I.
@@ -225,6 +239,14 @@ Proof.
   - destruct (side_of w s) as [sd|]; [|exact I]. destruct ((ci <? 0) || (cj <? 0) || (key <? HANDMADE)); [exact I|].
     destruct (nth_error (s_cells (sd_space sd)) (Z.to_nat ci)); [|exact I].
     destruct (nth_error (s_cells (sd_space sd)) (Z.to_nat cj)); exact I.
+  - destruct (side_of w s) as [sd|]; [|exact I].
+    destruct (draw_population (st_heap (w_st w)) sd kind arg) as [[|n]|]; exact I.
+  - destruct (nth_side (st_sets (w_st w)) s); exact I.
+  - destruct (nth_side (st_sets (w_st w)) s) as [ss|] eqn:En; [|exact I].
+    destruct (_ && _); [|exact I]. cbn [fst with_st w_st].
+    apply (subset_set_inv _ _ ss _ I En). intros a Ha. unfold set_fp in *. cbn [ss_members ss_tab] in Ha.
+    apply in_app_or in Ha. apply in_or_app. destruct Ha as [Ha|Ha]; [left|right; exact Ha].
+    apply in_flat_map in Ha. destruct Ha as [l [_ Hl]]. eapply member_with_label_in. exact Hl.
 Qed.
 
 Theorem wrun_inv w ops : forallb no_delempty ops = true -> Inv12 (w_st w) -> Inv12 (w_st (wrun_states w ops)).
@@ -422,7 +444,7 @@ Qed.
 
 Theorem wstep_ws w o : no_delempty o = true -> Inv12 (w_st w) -> WS w -> WS (fst (wstep w o)).
 Proof.
-  intros Hn I S. destruct o as [o'|mech src root|s label ci|s label|s ci name v|s|s|s ci key cj]; try discriminate; cbn [wstep].
+  intros Hn I S. destruct o as [o'|mech src root|s label ci|s label|s ci name v|s|s|s ci key cj|s kind arg|s kind|s perm]; try discriminate; cbn [wstep].
   - destruct o'; try exact S; try (destruct (fixed_guard w s label); [exact S|]);
       try (destruct (xconn_target w s label key)); apply inner_case_ws; try reflexivity; assumption.
   - apply wcopy_ws; assumption.
@@ -442,6 +464,11 @@ Proof.
   - destruct (side_of w s) as [sd|]; [|exact S]. destruct ((ci <? 0) || (cj <? 0) || (key <? HANDMADE)); [exact S|].
     destruct (nth_error (s_cells (sd_space sd)) (Z.to_nat ci)); [|exact S].
     destruct (nth_error (s_cells (sd_space sd)) (Z.to_nat cj)); [|exact S]. destruct S. constructor; assumption.
+  - destruct (side_of w s) as [sd|]; [|exact S].
+    destruct (draw_population (st_heap (w_st w)) sd kind arg) as [[|n]|]; exact S.
+  - destruct (nth_side (st_sets (w_st w)) s); exact S.
+  - destruct (nth_side (st_sets (w_st w)) s) as [ss|]; [|exact S].
+    destruct (_ && _); [|exact S]. destruct S. constructor; assumption.
 Qed.
 
 Theorem world_reachable c ops : good_case c -> forallb no_delempty ops = true ->
@@ -569,7 +596,7 @@ Definition weffect (w : world) (o : wop) : option op :=
   end.
 
 Definition plain (o : wop) : bool :=
-  match o with WCopy _ _ _ | SForget _ | DelEmpty _ => false | _ => true end.
+  match o with WCopy _ _ _ | SForget _ | DelEmpty _ | SShuffle _ _ => false | _ => true end.
 
 Lemma inner_case_st w o : w_st (fst (let '(w', _, r) := inner_step w o in (w', r))) = fst (step (w_st w) o).
 Proof. pose proof (inner_step_st w o) as E. destruct (inner_step w o) as [[w' news] r]. exact E. Qed.
@@ -577,7 +604,7 @@ Proof. pose proof (inner_step_st w o) as E. destruct (inner_step w o) as [[w' ne
 Lemma weffect_st w o : plain o = true ->
   w_st (fst (wstep w o)) = match weffect w o with Some o' => fst (step (w_st w) o') | None => w_st w end.
 Proof.
-  intros Hp. destruct o as [o'|mech src root|s label ci|s label|s ci name v|s|s|s ci key cj]; try discriminate;
+  intros Hp. destruct o as [o'|mech src root|s label ci|s label|s ci name v|s|s|s ci key cj|s kind arg|s kind|s perm]; try discriminate;
     cbn [wstep weffect].
   - destruct o'; try reflexivity; try (destruct (fixed_guard w s label); [reflexivity|]);
       try (destruct (xconn_target w s label key)); apply inner_case_st.
@@ -594,6 +621,9 @@ Proof.
   - destruct (side_of w s) as [sd|]; [|reflexivity]. destruct ((ci <? 0) || (cj <? 0) || (key <? HANDMADE)); [reflexivity|].
     destruct (nth_error (s_cells (sd_space sd)) (Z.to_nat ci)); [|reflexivity].
     destruct (nth_error (s_cells (sd_space sd)) (Z.to_nat cj)); reflexivity.
+  - destruct (side_of w s) as [sd|]; [|reflexivity].
+    destruct (draw_population (st_heap (w_st w)) sd kind arg) as [[|n]|]; reflexivity.
+  - destruct (nth_side (st_sets (w_st w)) s); reflexivity.
 Qed.
 
 (* one plain world operation, seen from side j: its abstract state moves by the abstract machine of Model/Copy.v on the
@@ -678,7 +708,7 @@ Proof.
   intros I Hn Hj. destruct (plain o) eqn:Hp.
   - destruct (wstep_refines w o j sd I Hp Hj) as [sd' [Hj' E]]. exists sd'. split; [exact Hj'|]. rewrite E.
     destruct (weffect w o) as [o'|]; [|reflexivity]. cbn [filter]. destruct (touches o' j); reflexivity.
-  - cbn [filter afinal fold_left]. destruct o as [o'|mech src root|s label ci|s label|s ci name v|s|s|s ci key cj]; try discriminate.
+  - cbn [filter afinal fold_left]. destruct o as [o'|mech src root|s label ci|s label|s ci name v|s|s|s ci key cj|s kind arg|s kind|s perm]; try discriminate.
     + (* WCopy *) cbn [wstep].
       destruct (nth_side (st_sides (w_st w)) src) as [sds|] eqn:En;
         [|exists sd; split; [unfold wcopy; rewrite En; exact Hj|unfold wcopy; rewrite En; reflexivity]].
@@ -691,6 +721,9 @@ Proof.
     + (* SForget *) cbn [wstep]. exists sd.
       destruct (nth_side (st_sets (w_st w)) s); [|split; [exact Hj|reflexivity]].
       destruct (nth (Z.to_nat s) (w_setpin w) true); split; try exact Hj; reflexivity.
+    + (* SShuffle *) cbn [wstep]. exists sd.
+      destruct (nth_side (st_sets (w_st w)) s); [|split; [exact Hj|reflexivity]].
+      destruct (_ && _); split; try exact Hj; reflexivity.
 Qed.
 
 (* C19_world_refinement: along every world history without remove_property_layer("empty") - model copies, off-grid and
@@ -708,4 +741,16 @@ Proof.
     destruct (wstep_seen_from w o j sd I Ho Hj) as [sd1 [Hj1 E1]].
     destruct (IH (fst (wstep w o)) sd1 (wstep_inv w o Ho I) Ht Hj1) as [sd' [Hj' E']].
     exists sd'. split; [exact Hj'|]. rewrite E', E1. rewrite filter_app. unfold afinal. rewrite fold_left_app. reflexivity.
+Qed.
+
+(* ------------------------------------------------------------------ random selections *)
+(* a random selection (select_random_cell / _agent on all_cells, empties, a neighbourhood; select_random_empty_cell under
+   both strategies; shuffle_do / shuffle(inplace=False) on an agent set) changes no side of the world: the only thing it
+   may touch is the generator of the side it is made on, which is not part of any side's observable state *)
+Theorem draw_leaves_world w s kind arg : fst (wstep w (Draw s kind arg)) = w /\ fst (wstep w (SDraw s kind)) = w.
+Proof.
+  split; cbn [wstep].
+  - destruct (side_of w s) as [sd|]; [|reflexivity].
+    destruct (draw_population (st_heap (w_st w)) sd kind arg) as [[|n]|]; reflexivity.
+  - destruct (nth_side (st_sets (w_st w)) s); reflexivity.
 Qed.
